@@ -660,8 +660,12 @@ def _save_composite_subset_state(state, context):
 @loader(CompositeSubsetState)
 def _load_composite_subset_state(rec, context):
     cls = lookup_class_with_patches(rec['_type'])
-    result = cls(context.object(rec['state1']),
-                 context.object(rec['state2']))
+    state1 = context.object(rec['state1'])
+    state2 = context.object(rec['state2'])
+    result = cls(state1, state2)
+    # the constructor copies its arguments; keep the loaded objects themselves,
+    # since some of them are completed later by __setgluestate_callback__
+    result.state1, result.state2 = state1, state2
     return result
 
 
